@@ -48,6 +48,11 @@ COMMS = {
 }
 
 
+# outside the random choice (and outside C05's domain): a commission that can sink the
+# portfolio through the very trades that open it
+COMMS_X = {"gouge": {"k": "prop", "a": [3, 10], "b": Z}}
+
+
 def rat_(x):
     f = Fraction(x)
     return [f.numerator, f.denominator]
@@ -124,7 +129,7 @@ def make_C(rng, tree=None, T=4, comm=None, spread=None, integer=True, mults=(1, 
     strat_comm = []
     for i in range(N):
         if kinds[i] == "strat":
-            strat_comm.append(COMMS[comm] if (i == 0 or rng.random() < 0.7) else COMMS[rng.choice(list(COMMS))])
+            strat_comm.append({**COMMS, **COMMS_X}[comm] if (i == 0 or rng.random() < 0.7) else COMMS[rng.choice(list(COMMS))])
         else:
             strat_comm.append(COMMS["zero"])
     # set_commissions pushes the parent's function to sub-strategies; the
